@@ -230,7 +230,7 @@ impl St {
             Op::Set(acc, idx) | Op::Mutate(acc, idx) => {
                 let set = matches!(op, Op::Set(..));
                 let p = idx.resolve(len);
-                if p + 1 >= len {
+                if p.saturating_add(1) >= len {
                     self.flags |= fl::BOUNDARY_ARG;
                 }
                 let target: Option<usize> = match acc {
@@ -390,7 +390,7 @@ impl St {
             }
             Op::Read(idx) => {
                 let p = idx.resolve(len);
-                if p + 1 >= len {
+                if p.saturating_add(1) >= len {
                     self.flags |= fl::BOUNDARY_ARG;
                 }
                 let obs = self.last_obs.clone();
@@ -420,7 +420,7 @@ impl St {
                     if p == 0 {
                         check_ref("front", b.front(), e)?;
                     }
-                    if p + 1 == len {
+                    if p.wrapping_add(1) == len {
                         check_ref("back", b.back(), e)?;
                     }
                     Ok(())
